@@ -14,9 +14,10 @@ EXTENDS QuerySem, TLC
 \* ---- alphabet: character codes; the driver maps them injectively to runes ----
 \*  1 X   2 7   3 space   4 "   5 \   6 (   7 )   8 ,   9 É (two bytes in UTF-8)
 \*  10 Y   11 ^   12 $   13 :         (10..13 behave like 1: plain characters)
+\*  14 l   15 i   16 m   17 t         (plain characters as well: they spell the clause word "limit" as a key)
 SP == 3  QT == 4  BS == 5  PO == 6  PC == 7  CM == 8  MB == 9
 Classes == 1..9
-Chars   == 1..13
+Chars   == 1..17
 Class(c) == IF c > 9 THEN 1 ELSE c
 
 \* ---- (a) tokenizer ----
@@ -99,7 +100,8 @@ KB == <<1, 5>>                                                                  
                                                                                    \* accessor (gjson paths) cannot name such a key, so only the text
                                                                                    \* round trip of queries on it is judged
 StructKeys == <<KX, KY, KXY, KYX, KE>>
-QKeys == <<KX, KY, KXY, KYX, KE, KS, KQ, KP, KM, KB>>
+KLIM == <<14, 15, 16, 15, 17>>                                                         \* limit: a key that reads like a clause word (in no record)
+QKeys == <<KX, KY, KXY, KYX, KE, KS, KQ, KP, KM, KB, KLIM>>
 StrKeys == <<KXY, KE, KS, KQ, KP, KB>>
 
 IntRanks == 0..8          \* driver: MinInt64, -2^53-1, -1, 0, 1, 2^31, 2^53+1, MaxInt64-1, MaxInt64
